@@ -127,6 +127,53 @@ def len_work(arg):
     return total, nfrag, viols
 
 
+def asym_work(arg):
+    """the two hosts are configured with DIFFERENT MTUs (setMTU is a per-process setting; 'decrease if the network drops
+    packets' on one side only), or the receiver's MTU changes while fragments are in flight: the message is split under the
+    sender's setting and reassembled under the receiver's.  Only pairs whose datagrams fit the receiver's RECV_SIZE."""
+    mtu_s, mtu_r = arg
+    viols = {}
+    total = 0
+    old = Packet.MTU
+    vt = seams.VirtualTime(500.0)
+    patches = seams.Patches()
+    patches.set(seams.m_connection, "time", vt)
+    try:
+        Ps, Fs = caps(mtu_s)
+        Pr, Fr = caps(mtu_r)
+        lengths = sorted({Ps + 1, Ps + 2, 2 * Fs - 1, 2 * Fs, 2 * Fs + 1, 3 * Fs + 100, 5000, 5 * Fs, 20000, 2 * Fr, 2 * Fr + 1, 3 * Fr, Pr + 1})
+        for n in lengths:
+            if n <= Ps:
+                continue
+            for order in ("in-order", "reversed", "last-first"):
+                for kind in ("pos", "zero"):
+                    total += 1
+                    data = contents(n, kind)
+                    Packet.setMTU(mtu_s)
+                    clock = Clock()
+                    a, b = pair(clock)
+                    wit = {"part": "asym", "mtu_sender": mtu_s, "mtu_receiver": mtu_r, "length": n, "order": order, "content": kind}
+                    try:
+                        a.send(data, RetryMode.NONE)
+                        msgs = list(a.outgoing_messages)
+                        Packet.setMTU(mtu_r)
+                        seq = msgs if order == "in-order" else (msgs[::-1] if order == "reversed" else [msgs[-1]] + msgs[:-1])
+                        for m in seq:
+                            b._recv_message(m.type, m.seq, m.payload)
+                        got = [p for _, p in b.incoming_messages]
+                    except Exception as e:
+                        viols.setdefault(("reassembly-raises", "reassembly raises %s when the two ends use different MTUs" % type(e).__name__), [0, wit, "len %d sender MTU %d receiver MTU %d: %r" % (n, mtu_s, mtu_r, e)])[0] += 1
+                        continue
+                    if got != [data]:
+                        what = "nothing delivered" if not got else ("%d messages" % len(got) if len(got) != 1 else ("delivered length %d" % len(got[0]) if len(got[0]) != n else "content differs"))
+                        viols.setdefault(("bytes", "a message split under the sender's MTU is not reproduced by a receiver configured with another MTU (%s)" % ("longer/shorter" if "length" in what else what)),
+                                         [0, wit, "len %d, sender MTU %d (fragments of %d), receiver MTU %d (fragment size %d), %s: %s" % (n, mtu_s, Fs, mtu_r, Fr, order, what)])[0] += 1
+    finally:
+        Packet.setMTU(old)
+        patches.undo()
+    return total, viols
+
+
 def limit_case():
     viols = {}
     clock = Clock()
@@ -468,6 +515,11 @@ def run(tier, seed):
         fold(r[2])
     n_lim, v = limit_case()
     fold(v)
+    asym_pairs = [(1500, 1000), (1000, 1500), (512, 1500), (1095, 1096), (1096, 1095), (1000, 512)] + ([(600, 1500), (1500, 1200), (800, 1000), (1000, 800)] if tier == "thorough" else [])
+    res_a = core.pmap("checks.c06", "asym_work", asym_pairs)
+    n_asym = sum(r[0] for r in res_a)
+    for r in res_a:
+        fold(r[1])
     # part 2
     res = core.pmap("checks.c06", "order_work", order_cases())
     n_ord = sum(r[0] for r in res)
@@ -493,9 +545,9 @@ def run(tier, seed):
     rep.coverage = {
         "two_client_executions": st_tc.executions,
         "states": st.points + s_ord + n_frag, "transitions": st.steps + n_ord + n_len, "traces_validated_against_impl": st.executions + n_ord + n_len,
-        "length_cases": n_len, "length_cases_fragmented": n_frag, "mtus": mtus, "limit_cases": n_lim,
+        "length_cases": n_len, "length_cases_fragmented": n_frag, "mtus": mtus, "limit_cases": n_lim, "different_mtu_at_the_two_ends_cases": n_asym,
         "arrival_orders": n_ord, "fault_executions": st.executions, "fault_by_deviations": st.by_cost, "fault_configurations": len(plist), "fault_capped": st.capped,
-        "evaluations": n_len + n_ord + st.executions + n_lim, "distinct_nontrivial": n_frag + s_ord + len(st.outcomes),
+        "evaluations": n_len + n_ord + st.executions + n_lim + n_asym, "distinct_nontrivial": n_frag + s_ord + len(st.outcomes),
         "rule": "lengths: every length 0..3P+20 x %d MTUs x 3 contents (position dependent, zeros, fragment-header look-alike) + limit/limit+1; "
                 "orders: all permutations (and single duplications) of the <=6 datagrams of 10 message sets at a fresh receiver; "
                 "faults: <=2 deviations x %d configurations (two fragmented messages in flight, retry modes, blackouts up to 200 ticks) on the real stack; two clients sending and receiving fragmented messages concurrently with per-connection attribution" % (len(mtus), len(plist)),
@@ -508,6 +560,13 @@ def run(tier, seed):
 
 
 def replay(witness):
+    if witness.get("part") == "asym":
+        total, viols = asym_work((witness["mtu_sender"], witness["mtu_receiver"]))
+        return [core.Violation(o, sg, witness, v[2]) for (o, sg), v in viols.items()]
+    return _replay_rest(witness)
+
+
+def _replay_rest(witness):
     part = witness.get("part")
     if part == "lengths":
         len_work_init("quick")
